@@ -9,6 +9,7 @@
 From Coq Require Import List Ascii String ZArith QArith Bool.
 From Coq Require Import NArith.
 From YP Require Import Outcome PyStr PyVal Doc PathParser Searches SearchLoops SpecC12 SearchProofs Eval SearchCands SearchLink.
+From YP Require Import SpecC12data SearchLinkData.
 Import ListNotations.
 Open Scope string_scope.
 
@@ -379,3 +380,203 @@ Example C12_ex_doc_aoh_attr :
                       NMap (sc_inf 5) [(sc_leaf 3 (PStr "a"), sc_leaf 6 (PInt 5))];
                       NMap (sc_inf 7) [(sc_leaf 8 (PStr "b"), sc_leaf 4 (PInt 1))]]) 3 [2%N] [5%N; 7%N].
 Proof. vm_compute. split; [eexists; repeat split|split; reflexivity]. Qed.
+
+(* ---- inversion over EVERY data shape, and when a comparison raises ----
+   `_get_nodes_by_search` is also handed data that is not a node of the loaded
+   document: a Python list the evaluator built (a slice `[0:2]`, the result list
+   of a Collector; its elements may be nodes, NodeCoords, nested lists) and a
+   NodeCoords.  Spec/SpecC12data.v extends the candidate abstraction to them
+   ([scd_cands_of] / [scd_items]: on [RNode n] they ARE [sc_cands_of] /
+   [sc_items]; an [RList] is searched by the list loop over its elements; an
+   [RCoords] is one candidate, itself, compared through the node it wraps) and
+   lists, candidate by candidate, what the comparison does ([sc_cmp]: an answer
+   or the exception it raises).  [by_search] refines the loops on every shape: *)
+Theorem C12_search_refines_data :
+  forall lit re_search nstr vstr rq inv m attr term v c cands,
+    scd_cands_of nstr vstr rq attr term v c = Ok cands ->
+    sc_refines (by_search lit re_search nstr vstr rq inv m attr term v c)
+               (sc_run lit re_search inv m term cands) (scd_items attr v c).
+Proof. exact by_search_refines_data. Qed.
+Print Assumptions C12_search_refines_data.
+
+(* The stream of a search, EXACTLY, however it ends (guard = finding F12a, about
+   HASH candidates of a document only): the verdicts of the answers before the
+   first comparison that does not answer ([sc_scan]) select the yielded items;
+   the items yielded before a raise stay in the stream; the candidate whose
+   comparison raises and all later ones are absent; how the stream ends does
+   not depend on the inversion flag. *)
+Theorem C12_search_stream_data :
+  forall lit re_search nstr vstr rq inv m attr term v c cands,
+    scd_cands_of nstr vstr rq attr term v c = Ok cands ->
+    sc_guard cands = true ->
+    by_search lit re_search nstr vstr rq inv m attr term v c =
+    (sc_select (map (verdict inv) (fst (sc_scan (sc_cmp lit re_search m term cands)))) (scd_items attr v c),
+     snd (sc_scan (sc_cmp lit re_search m term cands))).
+Proof. exact by_search_stream_data. Qed.
+Print Assumptions C12_search_stream_data.
+
+(* C12_inversion_doc for every data shape (the RNode case is C12_inversion_doc) *)
+Theorem C12_inversion_data :
+  forall lit re_search nstr vstr rq m attr term v c cands plain inv,
+    scd_cands_of nstr vstr rq attr term v c = Ok cands ->
+    sc_guard cands = true ->
+    by_search lit re_search nstr vstr rq false m attr term v c = (plain, Done) ->
+    by_search lit re_search nstr vstr rq true m attr term v c = (inv, Done) ->
+    exists mask,
+      sc_matches lit re_search m term cands = Ok mask /\
+      List.length mask = List.length (scd_items attr v c) /\
+      plain = sc_select mask (scd_items attr v c) /\
+      inv = sc_select (map negb mask) (scd_items attr v c).
+Proof. exact inversion_data. Qed.
+Print Assumptions C12_inversion_data.
+
+(* a list built by the evaluator: NO guard (the list loop only ever looks at
+   the first node of an element's descendant search) *)
+Theorem C12_inversion_list_data :
+  forall lit re_search nstr vstr rq m attr term l c cands plain inv,
+    scd_cands_of nstr vstr rq attr term (RList l) c = Ok cands ->
+    by_search lit re_search nstr vstr rq false m attr term (RList l) c = (plain, Done) ->
+    by_search lit re_search nstr vstr rq true m attr term (RList l) c = (inv, Done) ->
+    exists mask,
+      sc_matches lit re_search m term cands = Ok mask /\
+      List.length mask = List.length (scd_items attr (RList l) c) /\
+      plain = sc_select mask (scd_items attr (RList l) c) /\
+      inv = sc_select (map negb mask) (scd_items attr (RList l) c).
+Proof. exact inversion_list_data. Qed.
+Print Assumptions C12_inversion_list_data.
+
+(* a NodeCoords: one candidate, itself, compared through the node it wraps;
+   nothing is assumed but that both searches end normally *)
+Theorem C12_inversion_coords_data :
+  forall lit re_search nstr vstr rq m attr term nd par rf path anc c plain inv,
+    let v := RCoords nd par rf path anc in
+    let self := ncoords v (x_par c) (x_ref c) (x_tp c) (x_anc c) in
+    by_search lit re_search nstr vstr rq false m attr term v c = (plain, Done) ->
+    by_search lit re_search nstr vstr rq true m attr term v c = (inv, Done) ->
+    exists mt,
+      sm lit re_search m term (sc_hay nstr vstr nd) = Ok mt /\
+      plain = (if mt then [self] else []) /\
+      inv = (if mt then [] else [self]).
+Proof. exact inversion_coords_data. Qed.
+Print Assumptions C12_inversion_coords_data.
+
+(* ... and as the dispatcher of the query evaluator runs a search segment on
+   ANY data it is handed (a NodeCoords is unwrapped once: [unwrap_ctx]) *)
+Theorem C12_inversion_data_dispatch :
+  forall lit re_search nstr vstr kw_handler self sg_next rqp segs i us sub sub2 m attr term v0 c0 cands plain inv segs',
+    let v := fst (unwrap_ctx v0 c0) in
+    let c := snd (unwrap_ctx v0 c0) in
+    nth_error segs i = Some (PSeg (Some TSearch, ASearch false m attr term) us sub sub2) ->
+    nth_error segs' i = Some (PSeg (Some TSearch, ASearch true m attr term) us sub sub2) ->
+    scd_cands_of nstr vstr (rqp sub) attr term v c = Ok cands ->
+    sc_guard cands = true ->
+    dispatch lit re_search nstr vstr kw_handler self sg_next rqp segs i v0 c0 = (plain, Done) ->
+    dispatch lit re_search nstr vstr kw_handler self sg_next rqp segs' i v0 c0 = (inv, Done) ->
+    exists mask,
+      sc_matches lit re_search m term cands = Ok mask /\
+      List.length mask = List.length (scd_items attr v c) /\
+      plain = sc_select mask (scd_items attr v c) /\
+      inv = sc_select (map negb mask) (scd_items attr v c).
+Proof. exact inversion_data_dispatch. Qed.
+Print Assumptions C12_inversion_data_dispatch.
+
+(* When a comparison raises.  Whichever of the two searches ([inv0]) is seen to
+   end with an exception [e]: BOTH end with [e], at the same candidate k --
+   candidates 0..k-1 answered [mask], the comparison of candidate k raises [e]
+   ([sc_cmp] = the k answers, then [Raise e]), later candidates are never
+   compared -- and on the candidates before k the inverted search has yielded
+   exactly those the plain search has not, in candidate order. *)
+Theorem C12_inversion_doc_raises :
+  forall lit re_search nstr vstr rq inv0 m attr term n c cands e,
+    sc_cands_of nstr vstr rq attr term n c = Ok cands ->
+    sc_guard cands = true ->
+    snd (by_search lit re_search nstr vstr rq inv0 m attr term (RNode n) c) = Err e ->
+    exists k mask rest,
+      List.length mask = k /\ k < List.length (sc_items attr n c) /\
+      sc_cmp lit re_search m term cands = (map (@Ok bool) mask ++ Raise e :: rest)%list /\
+      by_search lit re_search nstr vstr rq false m attr term (RNode n) c =
+        (sc_select mask (firstn k (sc_items attr n c)), Err e) /\
+      by_search lit re_search nstr vstr rq true m attr term (RNode n) c =
+        (sc_select (map negb mask) (firstn k (sc_items attr n c)), Err e).
+Proof. exact inversion_doc_raises. Qed.
+Print Assumptions C12_inversion_doc_raises.
+
+(* the same for every data shape *)
+Theorem C12_inversion_data_raises :
+  forall lit re_search nstr vstr rq inv0 m attr term v c cands e,
+    scd_cands_of nstr vstr rq attr term v c = Ok cands ->
+    sc_guard cands = true ->
+    snd (by_search lit re_search nstr vstr rq inv0 m attr term v c) = Err e ->
+    exists k mask rest,
+      List.length mask = k /\ k < List.length (scd_items attr v c) /\
+      sc_cmp lit re_search m term cands = (map (@Ok bool) mask ++ Raise e :: rest)%list /\
+      by_search lit re_search nstr vstr rq false m attr term v c =
+        (sc_select mask (firstn k (scd_items attr v c)), Err e) /\
+      by_search lit re_search nstr vstr rq true m attr term v c =
+        (sc_select (map negb mask) (firstn k (scd_items attr v c)), Err e).
+Proof. exact inversion_data_raises. Qed.
+Print Assumptions C12_inversion_data_raises.
+
+(* ---- non-vacuity of the data-shape / raising theorems: the hypotheses hold
+   ([scd_cands_of] = Ok, guard, candidate count, what every comparison does) and
+   this is what the two streams are -- yielded NodeCoords shown as (identity of
+   the document node finally wrapped, parentref), and how the stream ends.
+   Every case was replayed on the real Processor.get_nodes (docs/C12.md). ---- *)
+Definition ex_data_check (re : string -> string -> outcome reres) (rq : rval -> ctx -> gen rval)
+           (m : smethod) (attr term : string) (vc : rval * ctx) (count : nat) (cmps : list (outcome bool))
+           (want_plain want_inv : list (N * option pyval)) (st : stop) : Prop :=
+  bind (scd_cands_of sc_demo_nstr sc_demo_vstr rq attr term (fst vc) (snd vc))
+       (fun cands => Ok (sc_guard cands, sc_count cands, sc_cmp sc_demo_lit re m term cands))
+  = Ok (true, count, cmps) /\
+  (let g := by_search sc_demo_lit re sc_demo_nstr sc_demo_vstr rq false m attr term (fst vc) (snd vc) in
+   (scd_ids (fst g), snd g) = (want_plain, st)) /\
+  (let g := by_search sc_demo_lit re sc_demo_nstr sc_demo_vstr rq true m attr term (fst vc) (snd vc) in
+   (scd_ids (fst g), snd g) = (want_inv, st)).
+
+(* {x: [1, 5, 1, abc]}: the data `/x[0:3]` hands on is a list the evaluator
+   built, of three NodeCoords; `[.=1]` yields elements 0 and 2, `[.!=1]` element 1 *)
+Example C12_ex_data_slice :
+  (exists l, fst (scd_data_at "/x[0:3]" scd_doc_slice) = RList l /\ List.length l = 3 /\
+             forallb (fun e => match e with RCoords _ _ _ _ _ => true | _ => false end) l = true) /\
+  ex_data_check scd_demo_re ex_rq0 MEquals "." "1" (scd_data_at "/x[0:3]" scd_doc_slice) 3
+    [Ok true; Ok false; Ok true]
+    [(4%N, Some (PInt 0)); (4%N, Some (PInt 2))] [(5%N, Some (PInt 1))] Done.
+Proof. vm_compute. split; [eexists; repeat split|]. split; [reflexivity|split; reflexivity]. Qed.
+(* the same through the whole evaluator: Processor.get_nodes("/x[0:3][.=1]") / ("/x[0:3][.!=1]") *)
+Example C12_ex_data_slice_e2e :
+  (let g := scd_run "/x[0:3][.=1]" scd_doc_slice in (scd_ids (fst g), snd g)) =
+    ([(4%N, Some (PInt 0)); (4%N, Some (PInt 2))], Done) /\
+  (let g := scd_run "/x[0:3][.!=1]" scd_doc_slice in (scd_ids (fst g), snd g)) =
+    ([(5%N, Some (PInt 1))], Done).
+Proof. vm_compute. split; reflexivity. Qed.
+(* {x: [{b: 1}, {a: 2}, {c: 3}]}, the Collector `(/x[0])+(/x[1])+(/x[2])` then `[a=2]`: the
+   elements are NodeCoords, so every one is searched by descent *)
+Example C12_ex_data_collector :
+  ex_data_check scd_demo_re (sc_demo_rq "a") MEquals "a" "2"
+    (scd_data_at "(/x[0])+(/x[1])+(/x[2])" scd_doc_attr) 3
+    [Ok false; Ok true; Ok false]
+    [(7%N, Some (PInt 1))] [(4%N, Some (PInt 0)); (10%N, Some (PInt 2))] Done.
+Proof. vm_compute. split; [reflexivity|split; reflexivity]. Qed.
+(* a NodeCoords as data: one candidate, compared through the node it wraps *)
+Example C12_ex_data_coords :
+  ex_data_check scd_demo_re ex_rq0 MEquals "." "1"
+    (RCoords (RNode (sc_leaf 4 (PInt 1))) None None "" [], root_ctx) 1 [Ok true]
+    [(4%N, None)] [] Done.
+Proof. vm_compute. split; [reflexivity|split; reflexivity]. Qed.
+(* [{'(': 1}, {b: 2}, {c: 3}] with `[.=~/(/]` (a pattern `re` rejects): candidate 0
+   matches by the Array-of-Hashes key-name shortcut without any comparison,
+   the comparison of candidate 1 raises: the plain search has yielded element 0,
+   the inverted search nothing, both end with the exception *)
+Example C12_ex_doc_raises :
+  ex_data_check scd_demo_re ex_rq0 MRegex "." "(" (RNode scd_seq_regex, root_ctx) 3
+    [Ok true; Raise (YPE Generic); Raise (YPE Generic)]
+    [(4%N, Some (PInt 0))] [] (Err (YPE Generic)).
+Proof. vm_compute. split; [reflexivity|split; reflexivity]. Qed.
+(* {x: [{b: 1}, {a: 2}, {c: 3}]}, `/x[0:3]` then `[a!=~/(/]`: the descendant search finds
+   nothing in element 0 (no comparison: not a match, yielded by the inverted
+   search), the comparison at element 1 raises *)
+Example C12_ex_data_raises :
+  ex_data_check scd_demo_re (sc_demo_rq "a") MRegex "a" "(" (scd_data_at "/x[0:3]" scd_doc_attr) 3
+    [Ok false; Raise (YPE Generic); Ok false]
+    [] [(4%N, Some (PInt 0))] (Err (YPE Generic)).
+Proof. vm_compute. split; [reflexivity|split; reflexivity]. Qed.
